@@ -11,6 +11,13 @@ CONFIG_ERRORS = ("ValueError", "TypeError", "RuntimeError", "KeyError", "NotImpl
 # option cases that exercise the same option value (mechanism) share one key
 ALIAS = {"redraw": "redraw_samples=True", "redraw_n": "redraw_samples=True", "redraw_initial": "redraw_samples=True", "prop_aug_zeros": "prop_aug", "prop_auggw": "prop_aug",
          "max_uninf_false": "max_uninf_0"}
+# combinations with the experimental ClusteringFlowProposal: the same mechanism whichever spelling of the partner option a random row contains
+for _c in ("prop_clust", "prop_clust_k"):
+    for _l in ("lat_nball", "lat_nsphere", "lat_nball_cv"):
+        ALIAS["+".join(sorted([_c, _l]))] = "clust_lat_nball"
+    ALIAS["+".join(sorted([_c, "flow_mlp"]))] = "clust_flow_mlp"
+    for _n in ("nlive_small", "nlive_small_plots", "nlive_small_plot_all", "nlive_10"):
+        ALIAS["+".join(sorted([_c, _n]))] = "clust_nlive_small"
 
 
 def load_options():
@@ -175,7 +182,7 @@ def main():
                 same = [m for m in c["members"] if single_fail.get((c["sampler"], m)) == key]
                 # a failure that no member shows on its own is keyed by its call site (exception type @ innermost nessai function), not by the random row
                 mem = reduced.get((c["sampler"], c["name"], key), c["members"])
-                culprit = ALIAS.get(same[0], same[0]) if same else "+".join(sorted(mem))
+                culprit = ALIAS.get(same[0], same[0]) if same else ALIAS.get("+".join(sorted(mem)), "+".join(sorted(mem)))
             chk.violation(f"C20:{c['sampler']}:{culprit}:{key}", f"{c['sampler']} option case {c['name']} kwargs={c['kwargs']} run_kwargs={c['run_kwargs']}: {detail}", small)
     chk.extra["verdict_table"] = dict(sorted(table.items())) if chk.quick else {k: v for k, v in sorted(table.items()) if v != "held"}
     chk.extra["budgets"] = "per run: latent batches per population 1500 (nominal <= 100), INS draw batches per draw 500 (nominal 1-2), standard iterations 80 x nlive (nominal 5-8 x nlive), " \
